@@ -57,7 +57,8 @@ var (
 		"socks5", "FOO", "PROXYX", "SOCKS6"}
 	pacHostPorts = []string{"proxya.test:3128", "proxya.test:3128", "proxya.test:3128", "proxyb.test:3129", "proxyb.test:3129", "socks.test:1080", "socks.test:1080",
 		"redir.test:7000", "redir.test:7000", "origin.test:80", "[::1]:3128", "proxya.test", "proxya.test:", "proxya.test:abc", "[::1]", "::1:3128", "[proxya.test:3128",
-		"proxya.test:3128:1", ""}
+		"proxya.test:3128:1", "", "proxya.test:3128", "proxyb.test:3129", "socks.test:1080", "redir.test:7000", ":3128", "proxya.test:03128", "proxya.test:99999", "proxya.test:65536", "proxya.test:+3128", "proxya.test:0", "proxya.test:31_28",
+		"proxya test:3128", "[]:3128"}
 	directRuleSets = [][]reqmodel.DomRule{
 		{{Kind: "e", Lit: "direct.test"}},
 		{{Kind: "s", Lit: ".direct.test"}, {Kind: "e", Lit: "not.direct.test", Exclude: true}},
@@ -67,6 +68,29 @@ var (
 		{{Kind: "e", Lit: "origin.test"}, {Kind: "e", Lit: "localhost"}},
 	}
 )
+
+// hostPool is targetHosts plus every hosts-file alias of a loopback address on this machine (as written
+// and with the first letter in upper case): the proxy appends them to its localhost names when it is
+// constructed through NewHTTPProxy, so they must be routed like "localhost" in every --proxy-localhost mode.
+func hostPool() []string {
+	out := append([]string{}, targetHosts...)
+	for _, a := range aliasTargets() {
+		out = append(out, a, a, strings.ToUpper(a[:1])+a[1:])
+	}
+	return out
+}
+
+// routesFor are the fixed connect-to routes: fixedRoutes plus routes that bring the aliases to the
+// scripted origin (otherwise a direct dial to an alias would leave the scripted listeners).
+func routesFor() []reqmodel.HostPortPair {
+	out := append([]reqmodel.HostPortPair{}, fixedRoutes...)
+	for _, a := range aliasTargets() {
+		for _, n := range []string{a, strings.ToUpper(a[:1]) + a[1:]} {
+			out = append(out, reqmodel.HostPortPair{SrcHost: n, SrcPort: "80", DstHost: "@origin"}, reqmodel.HostPortPair{SrcHost: n, SrcPort: "443", DstHost: "@origin"})
+		}
+	}
+	return out
+}
 
 func genPacEntry(r *core.Rand) string {
 	switch r.Intn(12) {
@@ -139,15 +163,57 @@ func genProxyURL(r *core.Rand) *reqmodel.ProxyURL {
 	return u
 }
 
+var (
+	urlPaths   = []string{"/r", "/r", "/", "/admin/x", "/admin/", "/a/b", "/a/1", "/index.html", "/b/", "/r.html", "/broken/x", "/a/b/c.html"}
+	urlQueries = []string{"x=1", "id=7", "", "x=1&id=7", "bad=1"}
+	// conditions on FindProxyForURL's arguments, within the pattern fragment the model covers
+	condPool = []reqmodel.PacCond{
+		{Op: "G", Lit: "*/admin/*"}, {Op: "G", Lit: "http://*"}, {Op: "G", Lit: "https://*"}, {Op: "G", Lit: "*://origin.test/*"}, {Op: "G", Lit: "*.html"},
+		{Op: "G", Lit: "*/r"}, {Op: "G", Lit: "*?*=*"}, {Op: "G", Lit: "*/a/?"}, {Op: "G", Lit: "*:8080/*"}, {Op: "G", Lit: "//*"}, {Op: "G", Lit: "*/a/*"},
+		{Op: "G", Lit: "http*://*.test*/*"}, {Op: "G", Lit: "*/broken/*"},
+		{Op: "P", Lit: "https:"}, {Op: "P", Lit: "http:"}, {Op: "P", Lit: "//"}, {Op: "P", Lit: "http://origin.test/a"}, {Op: "P", Lit: "https://origin.test/"},
+		{Op: "C", Lit: "/admin/"}, {Op: "C", Lit: "?x=1"}, {Op: "C", Lit: ":8080"}, {Op: "C", Lit: "/b/"}, {Op: "C", Lit: "id=7"}, {Op: "C", Lit: ".test:443"},
+		{Op: "C", Lit: "bad=1"}, {Op: "C", Lit: "/broken/"}, {Op: "C", Lit: ".html"},
+		{Op: "h", Lit: "*.direct.test"}, {Op: "h", Lit: "origin.*"}, {Op: "h", Lit: "*"}, {Op: "h", Lit: "??"},
+		{Op: "H", Lit: "origin.test"}, {Op: "H", Lit: "direct.test"},
+	}
+	// answers that differ visibly from one another (who is dialled / failure)
+	clearResults = []reqmodel.PacResult{
+		{Return: "PROXY proxya.test:3128"}, {Return: "HTTPS proxyb.test:3129"}, {Return: "SOCKS5 socks.test:1080"}, {Return: "DIRECT"},
+		{Return: "PROXY redir.test:7000; DIRECT"}, {Fail: "throw"}, {Fail: "number"}, {Return: "PROXY proxya.test"}, {Return: "HTTP proxya.test:abc"},
+		{Return: "SOCKS4 socks.test:1080"}, {Return: ""},
+	}
+)
+
+func genCond(r *core.Rand, depth int) reqmodel.PacCond {
+	if depth < 2 {
+		switch r.Intn(8) {
+		case 0:
+			return reqmodel.PacCond{Op: "N", Args: []reqmodel.PacCond{genCond(r, depth+1)}}
+		case 1:
+			return reqmodel.PacCond{Op: "A", Args: []reqmodel.PacCond{genCond(r, depth+1), genCond(r, depth+1)}}
+		}
+	}
+	return core.Pick(r, condPool)
+}
+
+func genRuleResult(r *core.Rand) reqmodel.PacResult {
+	if r.Chance(65) {
+		return core.Pick(r, clearResults)
+	}
+	return genPacResult(r)
+}
+
 func genCase(r *core.Rand) *rcase {
+	hosts := hostPool()
 	rc := &rcase{Kind: "routing", LocalMode: core.Pick(r, []string{"deny", "allow", "direct", "direct"})}
 	switch r.Intn(10) {
 	case 0:
 		rc.Route.Base = "none"
-	case 1, 2, 3:
+	case 1, 2:
 		rc.Route.Base = "static"
 		rc.Route.Static = genProxyURL(r)
-	case 4:
+	case 3:
 		rc.Route.Base = "custom"
 		k := r.Range(0, 3)
 		for i := 0; i < k; i++ {
@@ -155,26 +221,35 @@ func genCase(r *core.Rand) *rcase {
 			if r.Chance(70) {
 				u = genProxyURL(r)
 			}
-			rc.Route.CustomTable = append(rc.Route.CustomTable, reqmodel.CustomEntry{Host: core.Pick(r, targetHosts), URL: u})
+			rc.Route.CustomTable = append(rc.Route.CustomTable, reqmodel.CustomEntry{Host: core.Pick(r, hosts), URL: u})
 		}
 		if r.Chance(60) {
 			rc.Route.CustomDefault = genProxyURL(r)
 		}
 	default:
 		rc.Route.Base = "pac"
+		if r.Chance(65) {
+			// the script decides on the whole URL: conditions on url (path, scheme, port, query) and host
+			for i, k := 0, r.Range(1, 3); i < k; i++ {
+				rc.Route.PacRules = append(rc.Route.PacRules, reqmodel.PacRule{Cond: genCond(r, 0), R: genRuleResult(r)})
+			}
+		}
 		k := r.Range(0, 4)
+		if len(rc.Route.PacRules) > 0 {
+			k = r.Range(0, 2)
+		}
 		seen := map[string]bool{}
 		for i := 0; i < k; i++ {
-			hst := strings.Trim(core.Pick(r, targetHosts), "[]")
+			hst := strings.Trim(core.Pick(r, hosts), "[]")
 			if seen[hst] {
 				continue
 			}
 			seen[hst] = true
 			rc.Route.PacTable = append(rc.Route.PacTable, reqmodel.PacEntry{Host: hst, R: genPacResult(r)})
 		}
-		rc.Route.PacDefault = genPacResult(r)
+		rc.Route.PacDefault = genRuleResult(r)
 	}
-	if r.Chance(55) {
+	if r.Chance(50) {
 		rc.Route.DirectSet = true
 		rc.Route.Direct = core.Pick(r, directRuleSets)
 	}
@@ -186,29 +261,56 @@ func genCase(r *core.Rand) *rcase {
 		rc.Route.ConnectTo = append(rc.Route.ConnectTo, core.Pick(r, generatedRules))
 	}
 	rc.NGen = ng
-	rc.Route.ConnectTo = append(rc.Route.ConnectTo, fixedRoutes...)
-	rc.MITM = r.Chance(20)
-	nt := r.Range(3, 8)
+	rc.Route.ConnectTo = append(rc.Route.ConnectTo, routesFor()...)
+	rc.MITM = r.Chance(25)
+	// the request sequence: most targets go to one host[:port] (with varying path / query / scheme / kind),
+	// the rest anywhere
+	focus := core.Pick(r, hosts)
+	focusPort := ""
+	if r.Chance(35) {
+		focusPort = core.Pick(r, []string{"80", "8080", "443"})
+	}
+	nt := r.Range(4, 8)
 	for i := 0; i < nt; i++ {
 		t := target{ID: fmt.Sprintf("c05-%d", idSeq.Add(1))}
-		host := core.Pick(r, targetHosts)
+		onFocus := r.Chance(65)
+		host := core.Pick(r, hosts)
+		if onFocus {
+			host = focus
+		}
 		switch {
-		case rc.MITM && r.Chance(60):
+		case rc.MITM && r.Chance(55):
 			t.Kind = "mitm"
 			t.Authority = host
-			if r.Chance(40) {
+			if onFocus && focusPort != "" {
+				t.Authority += ":" + focusPort
+			} else if !onFocus && r.Chance(40) {
 				t.Authority += ":" + core.Pick(r, []string{"443", "8443"})
 			}
-		case !rc.MITM && r.Chance(35):
+		case !rc.MITM && r.Chance(30):
 			t.Kind = "connect"
-			t.Authority = host + ":" + core.Pick(r, []string{"443", "443", "80", "8443"})
+			if onFocus && focusPort != "" {
+				t.Authority = host + ":" + focusPort
+			} else {
+				t.Authority = host + ":" + core.Pick(r, []string{"443", "443", "80", "8443"})
+			}
 		default:
 			t.Kind = "plain"
 			t.Authority = host
-			if r.Chance(45) {
-				t.Authority += ":" + core.Pick(r, []string{"80", "8080", "9999"})
+			if onFocus && focusPort != "" {
+				t.Authority += ":" + focusPort
+			} else if !onFocus && r.Chance(45) {
+				t.Authority += ":" + core.Pick(r, []string{"80", "8080", "9999", "443"})
 			}
 			t.Absolute = r.Chance(40)
+		}
+		if t.Kind != "connect" {
+			t.Path = core.Pick(r, urlPaths)
+			if r.Chance(30) {
+				q := core.Pick(r, urlQueries)
+				t.Query = &q
+			}
+			t.Reuse = r.Chance(50)
 		}
 		rc.Targets = append(rc.Targets, t)
 	}
